@@ -78,7 +78,10 @@ def prepare(sym: bool):
     return mods
 
 
-def make_pde(a, c, calls):
+HOOK_EPS = 0.125  # the post-step hook adds HOOK_EPS * (number of steps done before) to the state
+
+
+def make_pde(a, c, calls, hook=False):
     import pde
 
     class LinearRate(pde.PDEBase):
@@ -105,6 +108,21 @@ def make_pde(a, c, calls):
 
             return rhs
 
+    if hook:
+        eps = HOOK_EPS
+
+        def make_post_step_hook(self, state, backend):
+            """stateful hook in the documented form: scalar auxiliary data that is updated at every step and feeds back
+            into the state (a read-only observer must not change how it evolves across tracker interrupts)"""
+
+            def post_step_hook(state_data, t, post_step_data):
+                state_data += eps * post_step_data
+                post_step_data += 1.0
+                return state_data, post_step_data
+
+            return post_step_hook, 0.0
+
+        LinearRate.make_post_step_hook = make_post_step_hook
     return LinearRate()
 
 
@@ -254,7 +272,7 @@ def run_controller(env, cfg, with_stop=True):
     backend = cfg.get("backend", "numpy")
     calls = [] if (env.sym or backend == "numpy") else None
 
-    eq = make_pde(a, c, calls)
+    eq = make_pde(a, c, calls, hook=bool(cfg.get("hook")))
     grid = pde.UnitGrid([1])
     data = np.empty(1, dtype=object if env.sym else float)
     data[0] = u0
@@ -289,6 +307,8 @@ def run_controller(env, cfg, with_stop=True):
         "a": a,
         "K": K,
         "solver": sname,
+        "hook": bool(cfg.get("hook")),
+        "hook_data": solver.info.get("post_step_data"),
         "calls": calls,
         "steps": solver.info["steps"],
         "t_final": ctrl.info["t_final"],
@@ -310,8 +330,10 @@ def nfold(r, n):
         for _ in range(n):
             u, prev = u + dt * (1.5 * f(u) - 0.5 * f(prev)), u
         return u
-    for _ in range(n):
+    for k in range(n):
         u = one_step(r["solver"], u, r["dt"], r["a"], r["c"])
+        if r.get("hook"):
+            u = u + HOOK_EPS * k
     return u
 
 
